@@ -158,7 +158,7 @@ def drivePure : List String → Option String
     pure (encSet (c.set pr cur s))
   | ["read", t] => (dec t).map fun t =>
     match readRegistry t with
-    | .ok l => "ok\t" ++ encPairs l
+    | .ok l => "ok\t" ++ encPairs (cacheOf l)      -- what `_cache.items()` shows afterwards
     | .invalid => "invalid"
     | .unm => "unm"
   | ["cache", l] => (decPairs l).map fun l => encPairs (cacheOf l)
